@@ -172,6 +172,8 @@ def run(ctx):
         'ceil(double(n)/double(c)) and ceil(sqrt(.)) modelled by exact integer ceilings (compared with the real functions on sampled n)',
         'coordinates are integer-valued doubles (exact min/max/+/compare)', 'correspondence is sampled (generator quality bounds it)']
     ok_build = ctx.build_repo('rel')
+    from translator.units import BY_PROPERTY
+    ctx.translate(BY_PROPERTY.get('C15', []))
     ok_coq, ax = ctx.coq_build('Properties_C15')
     drv = ctx.ocaml_driver('C15')
     hexe = os.path.join(BUILD, 'bin', 'c15')
@@ -201,7 +203,7 @@ def run(ctx):
     model = ctx.run_lines([drv], lines + size_lines, timeout=1200) if drv else None
     dist = {'ops': {}, 'n_items': {}, 'caps': {}}
     for mode in ['capi', 'cpp', 'itv']:
-        impl = ctx.run_lines([hexe, mode], lines + size_lines, timeout=600)
+        impl = ctx.run_lines([hexe, mode], lines + size_lines, timeout=600, line_timeout=30)
         for idx, line in enumerate(lines + size_lines):
             got = impl[idx] if idx < len(impl) else 'MISSING'
             is_size = idx >= len(lines)
@@ -335,7 +337,7 @@ def others(ctx):
     lines = []
     for _ in range(n):
         lines.append('%d %d %d %d' % (ctx.rng.randint(0, 2 ** 31), ctx.rng.choice([0, 1, 2, 3, 9, 10, 11, 16, 17, 32, 33, 50, 200, 255, 256, 257, 272, 273]), ctx.rng.choice([3, 10, 100, 1000]), ctx.rng.randint(2, 12)))
-    out = ctx.run_lines([exe], lines, timeout=600)
+    out = ctx.run_lines([exe], lines, timeout=600, line_timeout=30)
     stats = {}
     for l, o in zip(lines, out):
         ctx.count(('others', l), True)
